@@ -65,6 +65,12 @@ def cases(shard, rnd):
         yield {'wrap': 'value', 'v': gv.deep_chain(rnd, depth)}
         yield {'wrap': 'table', 'v': {'c': gv.deep_chain(rnd, depth - 1)}}
     yield {'wrap': 'table', 'v': gv.wide_table(rnd, 300)}
+    for _ in range(40 if shard['tier'] == 'quick' else 2000):
+        yield {'wrap': 'table', 'v': gv.with_shared_parts(rnd)}
+        t = gv.subclassify(gv.table(rnd, 0, 3, width=4), rnd, 0.9)
+        yield {'wrap': 'table', 'v': t}
+        yield {'wrap': 'array', 'v': gv.subclassify(
+            gv.array(rnd, 0, 3, width=4), rnd, 0.9)}
     yield {'wrap': 'table', 'v': {}}
     yield {'wrap': 'array', 'v': []}
     for _ in range(shard['n_random']):
